@@ -308,6 +308,16 @@ func c38ADs() [][][]byte {
 		{[]byte("abc"), []byte("de")},
 		{{}, []byte("wxyz"), []byte("q")},
 	}
+	protoShaped := [][][]byte{
+		// associated data whose bytes happen to be well-formed protobuf fields of HeaderAndBody: field 2 (body) again,
+		// an unknown varint field followed by an empty body field. Moving such bytes across the boundary between
+		// header_and_body and the associated data keeps the envelope parsable.
+		{{0x12, 0x04, 'e', 'v', 'i', 'l'}, []byte("tail")},
+		{{0x78, 0x01, 0x12, 0x00}},
+	}
+	if !mc.Thorough() {
+		return append(ads, protoShaped...)
+	}
 	if mc.Thorough() {
 		ads = append(ads,
 			[][]byte{c38Pattern(8, 3, 1), c38Pattern(8, 5, 2), c38Pattern(8, 7, 3)},
@@ -315,6 +325,7 @@ func c38ADs() [][][]byte {
 			[][]byte{c38Pattern(140, 9, 4)},
 		)
 	}
+	ads = append(ads, protoShaped...)
 	return ads
 }
 
@@ -374,7 +385,7 @@ func TestC38(t *testing.T) {
 	r.Rule = "base messages = keys {P-256,P-384,P-521} x algorithms {SHA256,SHA384,SHA512} x header shapes x body lengths x " +
 		"associated-data lists, each signed by the real Sign and by a clean-room reference signer; per base message every " +
 		"single mutation of the alphabet (each byte of HeaderAndBody and Signature under each mask, truncations/extensions, " +
-		"re-encoded header/body field edits, non-canonical re-encodings, AD byte/part edits, every other key, inconsistent " +
+		"re-encoded header/body field edits, non-canonical re-encodings, AD byte/part edits, every shift of the header_and_body / AD boundary (incl. protobuf-shaped AD), every other key, inconsistent " +
 		"algorithms/key types) and every split of the same AD concatenation; one case = one Verify/Sign call judged by the " +
 		"oracle; a mutant is non-trivial iff its (message bytes, key, AD concatenation) differs from the signed one"
 
@@ -440,7 +451,7 @@ func TestC38(t *testing.T) {
 	outNames := []string{"verified:real-signed", "verified:reference-signed", "verified:ad-resplit", "verified:equal-key-copy",
 		"rejected:header-and-body-byte", "rejected:signature-byte", "rejected:length-edit", "rejected:field-edit",
 		"rejected:noncanonical-reencoding", "rejected:associated-data", "rejected:other-key", "rejected:algorithm-or-key-type",
-		"rejected:foreign-signature", "sign-refused"}
+		"rejected:foreign-signature", "sign-refused", "rejected:body-ad-boundary-moved"}
 	const (
 		oReal = iota
 		oRef
@@ -456,6 +467,7 @@ func TestC38(t *testing.T) {
 		oAlg
 		oForeign
 		oSignRefused
+		oBoundary
 	)
 
 	mc.ParallelFor(len(order), func(oi int) {
@@ -810,6 +822,25 @@ func TestC38(t *testing.T) {
 		adEdit("AD replaced by the body", [][]byte{body})
 		adEdit("AD replaced by zero bytes of the same length", [][]byte{make([]byte, n)})
 
+		// 8b. the boundary between header_and_body and the associated data moved (the concatenation that is hashed stays
+		// byte-identical; only the signed AD length pins the boundary): every prefix of the AD appended to
+		// header_and_body, and up to 8 trailing bytes of header_and_body moved to the front of the AD.
+		for k := 1; k <= n; k++ {
+			hb := append(append([]byte{}, hb0...), adCat[:k]...)
+			for _, rest := range [][][]byte{{adCat[k:]}, {adCat[k:], {}}, nil} {
+				if rest == nil && k < n {
+					continue
+				}
+				expectReject(oBoundary, "body-ad-boundary-moved-accepted", fmt.Sprintf("first %d AD byte(s) %x appended to HeaderAndBody, rest passed as AD", k, adCat[:k]),
+					&cryptopb.SignedMessage{HeaderAndBody: hb, Signature: sg0}, pub, rest)
+			}
+		}
+		for j := 1; j <= 8 && j < len(hb0); j++ {
+			hb := hb0[:len(hb0)-j]
+			expectReject(oBoundary, "body-ad-boundary-moved-accepted", fmt.Sprintf("last %d byte(s) of HeaderAndBody moved to the front of the AD", j),
+				&cryptopb.SignedMessage{HeaderAndBody: hb, Signature: sg0}, pub, append([][]byte{hb0[len(hb0)-j:]}, ad...))
+		}
+
 		// 9. other keys and inconsistent key types.
 		for ki, k := range keys {
 			if ki == bc.key {
@@ -945,5 +976,5 @@ func TestC38(t *testing.T) {
 			"may differ by a few between runs; no verdict depends on signature bytes",
 		"Sign with an inconsistent algorithm/key/AD length is only required not to yield a verifiable message",
 	}
-	r.Finish(10)
+	r.Finish(11)
 }
